@@ -21,10 +21,17 @@ type VerifAPIWorld struct {
 	rec     *fenvRec
 }
 
-func VerifNewAPIWorld(state string, fails func(n int) bool) *VerifAPIWorld {
+func VerifNewAPIWorld(state string, fails func(n int) bool, goErrorHookFails bool) *VerifAPIWorld {
 	rec := &fenvRec{}
-	env := fenvNew(&fenvConf{}, rec, state, nil)
-	env.workflow = workflow.NewAggregatorRole("root", []workflow.Role{workflow.VerifTaskRole("t0", true, &task.Task{})})
+	var hooks []fenvHook
+	roles := []workflow.Role{workflow.VerifTaskRole("t0", true, &task.Task{})}
+	if goErrorHookFails { // a critical hook that cancels the GO_ERROR transition itself
+		hooks = append(hooks, fenvHook{name: "h", trigger: "before_GO_ERROR", critical: true})
+		rec.onCall = failingCall
+		roles = append(roles, workflow.NewCallRole("h", task.Traits{Trigger: "before_GO_ERROR", Await: "before_GO_ERROR", Timeout: "5s", Critical: true}, "verif.Hook()", ""))
+	}
+	env := fenvNew(&fenvConf{}, rec, state, hooks)
+	env.workflow = workflow.NewAggregatorRole("root", roles)
 	workflow.LinkChildrenToParents(env.workflow)
 	workflow.VerifAttach(env.workflow, env.wfAdapter)
 	tm := fenvTaskman(rec, env, fails)
